@@ -80,7 +80,9 @@ Section Foot.
 
   (* render_footnote_reference (a definition); returns whether a footnote node was created *)
   Definition render_footnote_reference (g : regs) (target : str) (body : N) : regs * bool :=
-    if mem_str target (g_nameids g) then
+    (* any(target in fn["names"] or target in fn["dupnames"] for fn in document.footnotes + autofootnotes):
+       only an earlier footnote definition makes a duplicate (a footnote built here has names = [label]) *)
+    if existsb (fun f => str_eqb target (f_label f)) (g_footnotes g ++ g_autofootnotes g) then
       ({| g_nameids := g_nameids g; g_autofootnotes := g_autofootnotes g; g_footnotes := g_footnotes g;
           g_autofootnote_refs := g_autofootnote_refs g; g_footnote_refs := g_footnote_refs g;
           g_allrefs := g_allrefs g; g_nrefs := g_nrefs g; g_warn := g_warn g ++ [WDup target] |}, false)
